@@ -33,7 +33,7 @@ FLOORS = {"quick": {"events": 60000, "new_acks": 20000, "dup_acks": 10000, "fast
                        "timeouts": 40000, "slow_start_acks": 100000, "cong_avoid_acks": 100000, "deflations": 20000,
                        "short_dup_runs": 16000, "new_segments_checked": 400000, "guard_tight": 60000,
                        "cubic_cases": 4000, "reno_cases": 4000, "multi_segment_acks": 60000, "rtt_above_rto": 10000}}
-KEYS = tuple(FLOORS["quick"].keys()) + ("candidate_forks", "simultaneous_timeouts", "app_paced_cases", "windows_beyond_65535", "sync_acks_inside_fast_retransmit", "finite_finish_time_cases", "timeouts_after_finish_time")
+KEYS = tuple(FLOORS["quick"].keys()) + ("candidate_forks", "simultaneous_timeouts", "app_paced_cases", "windows_beyond_65535", "sync_acks_inside_fast_retransmit", "finite_finish_time_cases", "timeouts_after_finish_time", "other_mss_cases")
 # floors for the situations added with the later rounds of seeded changes (evidence that they were really exercised)
 FLOORS["quick"].update({'sync_acks_inside_fast_retransmit': 500, 'timeouts_after_finish_time': 400})
 FLOORS["thorough"].update({'sync_acks_inside_fast_retransmit': 2500, 'timeouts_after_finish_time': 2000})
@@ -67,8 +67,13 @@ def gen_case(rng, i):
         ev = [["ack", 1, rng.choice([1e-5, 2e-5, 3e-5]) if tiny else rng.choice([0.01, 0.1])] for _ in range(rng.randint(130, 200))] + ev
     case = {"cc": "TCPCubic" if cubic else "TCPReno", "events": ev, "rtt0": rng.choice([1.0, 0.5, 0.1, 2.0]),
             "segments": rng.choice([None, None, 40, 200])}
+    if not cubic and i % 6 == 1:
+        case["mss"] = rng.choice([1000, 1460, 256])
+        case["segments"] = None
     if not cubic:
         case["cwnd0"] = rng.choice([512, 1024, 2048, 5000, 20000, 700])
+        if "mss" in case:
+            case["cwnd0"] = rng.choice([1, 2, 4, 10]) * case["mss"] + rng.choice([0, 0, 200])
         case["ssthresh0"] = rng.choice([65535, 1024, 2048, 4096, 10000, 512, 0, 100])
         if big:
             case["cwnd0"] = rng.choice([60000, 120000, 65535])
@@ -78,6 +83,8 @@ def gen_case(rng, i):
         # window edge last_ack + cwnd passes many segment boundaries (a rounded edge admits a segment early)
         case["cwnd0"], case["ssthresh0"], case["segments"] = rng.choice([1024, 2048, 5000]), rng.choice([512, 1024]), None
         case["events"] = [["ack", rng.choice([1, 1, 1, 2]), rng.choice([0.01, 0.05, 0.1])] for _ in range(rng.randint(300, 900))]
+        if "mss" in case:
+            case["cwnd0"] = 2 * case["mss"]
     if i % 9 == 2:
         case["finish"] = rng.choice([0.5, 2.0, 5.0, 12.0])
     if i % 5 == 3:
@@ -198,6 +205,10 @@ def pub_eq(a, b):
 
 def run_case(case, stats):
     from onl.packet import TCPPacketGenerator, TCPReno, TCPCubic, Flow, Packet
+    global MSS
+    MSS = case.get("mss", 512)          # the segment size of this case (every rule of the statement is in units of it)
+    if MSS != 512:
+        stats["other_mss_cases"] += 1
     viol = []
 
     def bad(m, what, wit=None):
@@ -224,6 +235,7 @@ def run_case(case, stats):
         cc = TCPCubic()
         stats["cubic_cases"] += 1
     sender = TCPPacketGenerator(env, flow=flow, cc=cc, rtt_estimate=case["rtt0"])
+    sender.mss = MSS
     worlds = [Ref(case)]
     arm = {}              # seq -> (arm time, rto armed with)   (shared by all worlds: derived from observations)
     txlog = []            # (now, seq, kind)
